@@ -17,6 +17,7 @@ class JsGen:
         self.scope = [["g0", "g1", "g2"]]     # variable names visible (all initialised before use)
         self.funcs = []                        # callable names: (name, arity)
         self.in_function = False
+        self.try_depth = 0
 
     # ---------------------------------------------------------------- helpers
     def pick(self, xs):
@@ -238,7 +239,9 @@ class JsGen:
         if k < 77 and self.in_function:
             return "return %s;" % self.expr(2)
         if k < 80:
-            return "throw %s;" % self.expr(1) if self.chance(1, 3) else "print(typeof %s);" % self.var()
+            # a throw at the top level would leave the rest of the program unreachable
+            can_throw = self.try_depth > 0 or self.in_function
+            return "throw %s;" % self.expr(1) if (can_throw and self.chance(1, 3)) else "print(typeof %s);" % self.var()
         if k < 84 and self.fn_depth < 2:
             return self.klass(d)
         if k < 87:
@@ -293,7 +296,9 @@ class JsGen:
 
     def tryst(self, d):
         r = self.r
+        self.try_depth += 1
         s = "try %s" % self.block(d - 1)
+        self.try_depth -= 1
         k = r() % 3
         if k != 1:
             e = self.fresh("e")
